@@ -18,19 +18,30 @@
    does not use (rwt/lrt on the initiator, brs/lri/acm on the target) are part of the
    record (x...): nfcpy's connect() passes them to both roles and they must be ignored.
 
+   After activation the same rule holds once more per data link connection (section "data link connections"):
+   CONNECT / CC announce MIUX and RW, the connection is addressed by SAP, by service name (CONNECT to SAP 1, rewritten
+   by the accepting LLC) or by SAP after an explicit name lookup, and the limits both ends hold must be EQUAL to what
+   the other end announced (ConnEqual) - not only not larger (Obey / Refused).
+
    TLC enumerates Grid (structured sub-grids of the full product, see GridCfg) as initial
    states and checks Symmetric / WithinRanges on Expected(c); the binding re-enumerates the
    same grid on two real stacks and Trace_P2pNeg requires proj = Proj(Expected(c)).        *)
 EXTENDS Naturals, Sequences, FiniteSets, TLC
 
 CONSTANTS Kinds,         \* sub-grids to enumerate: subset of {"dep", "ml", "opt", "lto", "depx", "llcp"}
-          MaxSent        \* frames an obeying sender puts on the link per behaviour (model checking bound)
+          MaxSent,       \* frames an obeying sender puts on the link per behaviour (model checking bound)
+          MaxConn,       \* data link connections opened per behaviour (model checking bound; 0 = none)
+          MiuClasses,    \* which connection MIU announcements CONNECT / CC carry (see MiuxOf)
+          RwVals         \* which receive windows CONNECT / CC carry (NoTlv = no RW TLV)
 
 VARIABLES c,             \* configuration
           ph,            \* "start" -> "up" | "down"
-          conn,          \* connection MIUs announced after activation: {[side, sap, miu]} (CONNECT / CC seen from side)
-          sent           \* history of what crossed the link: {[layer, dir, size, limit]}
-vars == <<c, ph, conn, sent>>
+          conn,          \* connection parameters announced after activation: {[side, sap, miu, rw]} (CONNECT / CC of side,
+                         \* sap = the announcing end's own service access point)
+          sent,          \* history of what crossed the link: {[layer, dir, size, limit]}
+          dlc            \* data link connections, from the CONNECT on: how they were addressed, what was announced, and the
+                         \* limits both ends hold once the connection is open (see the connection section)
+vars == <<c, ph, conn, sent, dlc>>
 
 LRTab == <<64, 128, 192, 254>>
 LR(k) == LRTab[k + 1]
@@ -122,19 +133,19 @@ WithinRanges(e) ==
 
 \* ------------------------------------------------------------------ behaviour: activation, then traffic
 Init == /\ \E kind \in Kinds : \E k \in 0..(Size(kind) - 1) : c = GridCfg(kind, k)
-        /\ ph = "start" /\ conn = {} /\ sent = {}
+        /\ ph = "start" /\ conn = {} /\ sent = {} /\ dlc = {}
 
 \* the negotiation action: from here on the limits of Expected(c) bind both sides
 Activate == /\ ph = "start"
             /\ ph' = IF Expected(c).ok THEN "up" ELSE "down"
-            /\ UNCHANGED <<c, conn, sent>>
+            /\ UNCHANGED <<c, conn, sent, dlc>>
 
 \* a second negotiation action: a CONNECT or CC PDU of `side` ("I" / "T") announces the MIU of the data link
-\* connection that ends at its service access point `sap`
+\* connection that ends at its service access point `sap` (no RW TLV: receive window 1)
 Announce(side, sap, miu) ==
     /\ ph = "up" /\ Cardinality(conn) < MaxSent
-    /\ conn' = conn \cup {[side |-> side, sap |-> sap, miu |-> miu]}
-    /\ UNCHANGED <<c, ph, sent>>
+    /\ conn' = conn \cup {[side |-> side, sap |-> sap, miu |-> miu, rw |-> 1]}
+    /\ UNCHANGED <<c, ph, sent, dlc>>
 
 Rcv(dir) == IF dir = "IT" THEN "T" ELSE "I"
 LinkMiu(x, dir) == IF dir = "IT" THEN Expected(x).t.recvMiu ELSE Expected(x).i.recvMiu   \* what the receiver announced
@@ -161,7 +172,99 @@ Send(layer, dir, sap, size) ==
     /\ ph = "up" /\ Cardinality(sent) < MaxSent
     /\ size <= Limit(c, conn, layer, dir, sap)
     /\ sent' = sent \cup {Unit(c, conn, layer, dir, sap, size)}
-    /\ UNCHANGED <<c, ph, conn>>
+    /\ UNCHANGED <<c, ph, conn, dlc>>
+
+\* ------------------------------------------------------------------ data link connections
+\* The third negotiation: a data link connection is opened by either side (`init`), addressed in one of three ways
+\*   "sap"       CONNECT to the service access point of the service
+\*   "name"      CONNECT to SAP 1 carrying the service NAME (SN TLV): the accepting LLC resolves the name and hands the
+\*               CONNECT on to the service's access point - the parameters the PDU announces must survive that
+\*   "resolved"  the opener first asks for the SAP of the name (SNL SDREQ / SDRES), then CONNECTs to that SAP
+\* and CONNECT / CC each announce the receiving limits of their sender for this connection: MIUX TLV (MIU = 128 + MIUX,
+\* no TLV = 128) and RW TLV (0..15, no TLV = 1).  What one end announces is what the other end must use - not more
+\* (Obey / Refused) and not less (ConnEqual): the send MIU of an end EQUALS the smaller of the peer's connection MIU and
+\* the link MIU the peer announced in its PAX, the send window EQUALS the peer's RW, however the connection was addressed.
+NoTlv == 65535
+ConnModes == {"sap", "name", "resolved"}
+SvcSap == 16                  \* model checking: the service of either side
+CliSap == 32                  \* model checking: the client socket of either side
+Other(s) == IF s = "I" THEN "T" ELSE "I"
+DirTo(s) == IF s = "T" THEN "IT" ELSE "TI"
+MinN(a, b) == IF a <= b THEN a ELSE b
+AnnLink(x, s) == IF s = "I" THEN Expected(x).i.recvMiu ELSE Expected(x).t.recvMiu   \* link MIU in the PAX of side s
+MiuOfP(p) == IF p.miux = NoTlv THEN 128 ELSE 128 + p.miux
+RwOfP(p) == IF p.rw = NoTlv THEN 1 ELSE p.rw
+\* the MIUX values a CONNECT / CC of a side whose link MIU is `link` may carry: no TLV, an explicit 0, below / at / above
+\* the link MIU, the largest
+MiuxOf(cl, link) == CASE cl = "none" -> NoTlv
+                      [] cl = "zero" -> 0
+                      [] cl = "below" -> (link - 128) \div 2
+                      [] cl = "at" -> link - 128
+                      [] cl = "above" -> MinN(2047, link - 128 + 352)
+                      [] cl = "max" -> 2047
+NoPar == [miux |-> NoTlv, rw |-> NoTlv]
+NoEnd == [miu |-> 0, win |-> 0]
+\* the limits of the end that sends TO side r, after r announced p for the connection
+EndFor(x, r, p) == [miu |-> MinN(MiuOfP(p), AnnLink(x, r)), win |-> RwOfP(p)]
+
+\* pure functions on connection records (composed by the actions below and by Trace_P2pNeg)
+\*   st    "resolved" (SNL done, no CONNECT yet) -> "connect" (CONNECT on its way) -> "open"
+\*   ann   what the CONNECT announced on the link;  cur = what the CONNECT PDU carries where it is now
+\*   acc / opn   the limits the accepting / the opening end holds for SENDING
+Looked(s) == [st |-> "resolved", init |-> s, mode |-> "resolved", dsap |-> 0, ssap |-> 0, svc |-> 0,
+              ann |-> NoPar, cur |-> NoPar, cc |-> NoPar, acc |-> NoEnd, opn |-> NoEnd]
+Requested(s, mode, ssap, dsap, p) ==
+    [st |-> "connect", init |-> s, mode |-> mode, dsap |-> dsap, ssap |-> ssap, svc |-> 0,
+     ann |-> p, cur |-> p, cc |-> NoPar, acc |-> NoEnd, opn |-> NoEnd]
+\* LogicalLinkController.dispatch: connect-by-name is rewritten to the access point the name is bound to; MIU and RW
+\* are carried over
+Rewritten(d, sap) == [d EXCEPT !.dsap = sap, !.cur = d.cur]
+\* accept() / CC: both ends take their sending limits from what the other end announced
+Accepted(x, d, sap, q) ==
+    [d EXCEPT !.st = "open", !.svc = sap, !.cc = q,
+              !.acc = EndFor(x, d.init, d.cur), !.opn = EndFor(x, Other(d.init), q)]
+
+Lookup(s) ==
+    /\ ph = "up" /\ Cardinality(dlc) < MaxConn /\ ~\E d \in dlc : d.init = s
+    /\ dlc' = dlc \cup {Looked(s)}
+    /\ UNCHANGED <<c, ph, conn, sent>>
+ConnectReq(s, mode, p) ==
+    /\ ph = "up"
+    /\ IF mode = "resolved" THEN \E d \in dlc : d.init = s /\ d.st = "resolved"
+       ELSE Cardinality(dlc) < MaxConn /\ ~\E d \in dlc : d.init = s
+    /\ dlc' = {d \in dlc : d.init # s} \cup {Requested(s, mode, CliSap, IF mode = "name" THEN 1 ELSE SvcSap, p)}
+    /\ conn' = conn \cup {[side |-> s, sap |-> CliSap, miu |-> MiuOfP(p), rw |-> RwOfP(p)]}
+    /\ UNCHANGED <<c, ph, sent>>
+ResolveName(d) ==
+    /\ d \in dlc /\ d.st = "connect" /\ d.dsap = 1
+    /\ dlc' = (dlc \ {d}) \cup {Rewritten(d, SvcSap)}
+    /\ UNCHANGED <<c, ph, conn, sent>>
+AcceptConn(d, q) ==
+    /\ d \in dlc /\ d.st = "connect" /\ d.dsap = SvcSap
+    /\ dlc' = (dlc \ {d}) \cup {Accepted(c, d, SvcSap, q)}
+    /\ conn' = conn \cup {[side |-> Other(d.init), sap |-> SvcSap, miu |-> MiuOfP(q), rw |-> RwOfP(q)]}
+    /\ UNCHANGED <<c, ph, sent>>
+
+\* the receive window the receiver of direction `dir` announced for its access point `sap` (0: no connection)
+WinLimit(cn, dir, sap) ==
+    LET ws == {a.rw : a \in {b \in cn : b.side = Rcv(dir) /\ b.sap = sap}} IN
+    IF ws = {} THEN 0 ELSE MinOf(ws)
+
+\* the limits of both ends are EQUAL to what the other end announced, however the connection was addressed
+EndsEqual(x, d) ==
+    /\ d.acc.miu = MinN(MiuOfP(d.ann), AnnLink(x, d.init)) /\ d.acc.win = RwOfP(d.ann)
+    /\ d.opn.miu = MinN(MiuOfP(d.cc), AnnLink(x, Other(d.init))) /\ d.opn.win = RwOfP(d.cc)
+ConnEqual == \A d \in dlc : d.st = "open" => EndsEqual(c, d)
+\* ... and they are the limits that Obey / Refused judge the traffic by (from the announcements on the link)
+ConnLimitAgree ==
+    \A d \in dlc : d.st = "open" =>
+        /\ Limit(c, conn, "i", DirTo(d.init), d.ssap) = d.acc.miu
+        /\ Limit(c, conn, "i", DirTo(Other(d.init)), d.svc) = d.opn.miu
+        /\ WinLimit(conn, DirTo(d.init), d.ssap) = d.acc.win
+        /\ WinLimit(conn, DirTo(Other(d.init)), d.svc) = d.opn.win
+ConnSane == \A d \in dlc : d.st = "open" =>
+        /\ d.acc.miu \in 128..AnnLink(c, d.init) /\ d.opn.miu \in 128..AnnLink(c, Other(d.init))
+        /\ d.acc.win \in 0..15 /\ d.opn.win \in 0..15
 
 \* traffic after activation: a DEP frame of `size` transport bytes at bit rate `brty`
 FrameOk(x, dir, size, brty) ==
@@ -184,6 +287,12 @@ Next == \/ Activate
         \/ \E side \in {"I", "T"} : \E m \in {128, LinkMiu(c, IF side = "I" THEN "TI" ELSE "IT")} : Announce(side, 32, m)
         \/ \E layer \in {"dep", "llc", "ui", "i"}, dir \in {"IT", "TI"} :
               Send(layer, dir, 32, Limit(c, conn, layer, dir, 32))
+        \/ \E s \in {"I", "T"} : Lookup(s)
+        \/ \E s \in {"I", "T"}, mode \in ConnModes, cl \in MiuClasses, w \in RwVals :
+              ConnectReq(s, mode, [miux |-> MiuxOf(cl, AnnLink(c, s)), rw |-> w])
+        \/ \E d \in dlc : ResolveName(d)
+        \/ \E d \in dlc, cl \in MiuClasses, w \in RwVals :
+              AcceptConn(d, [miux |-> MiuxOf(cl, AnnLink(c, Other(d.init))), rw |-> w])
 Spec == Init /\ [][Next]_vars
 
 SymmetricInv == (ValidCfg(c) /\ Expected(c).ok) => Symmetric(Expected(c))
@@ -203,4 +312,12 @@ W_Acm    == ~(ph = "up" /\ Expected(c).acm)
 W_MaxMiu == ~(ph = "up" /\ Expected(c).i.sendMiu = 2175 /\ Expected(c).t.depMiu = 61)
 W_ConnLim == ~(\E f \in sent : f.layer = "i" /\ f.limit = 128 /\ LinkMiu(c, f.dir) > 128)
 W_Full    == ~(\E f \in sent : f.layer = "llc" /\ f.size = 2175)
+\* connections: every way of addressing reaches an open connection whose limits are neither the defaults nor the link's
+Mid(d) == d.st = "open" /\ d.acc.miu > 128 /\ d.acc.miu < AnnLink(c, d.init) /\ d.acc.win > 1
+W_BySap    == ~(\E d \in dlc : d.mode = "sap" /\ Mid(d))
+W_ByName   == ~(\E d \in dlc : d.mode = "name" /\ Mid(d) /\ d.dsap = SvcSap)
+W_Resolved == ~(\E d \in dlc : d.mode = "resolved" /\ Mid(d))
+W_NoTlv    == ~(\E d \in dlc : d.st = "open" /\ d.ann = NoPar /\ AnnLink(c, d.init) > 128 /\ d.acc = [miu |-> 128, win |-> 1])
+W_Clamped  == ~(\E d \in dlc : d.st = "open" /\ MiuOfP(d.ann) > d.acc.miu /\ MiuOfP(d.cc) > d.opn.miu)
+W_Win      == ~(\E d \in dlc : d.st = "open" /\ d.acc.win = 15 /\ d.opn.win = 0)
 =============================================================================
